@@ -220,6 +220,23 @@ def battery_cases():
     for a in gids:
         for b in gids:
             out.append(("gid", a, b, "battery:gid"))
+    # expression forms (const generic arguments, array lengths and item bodies are expressions): every syn::Expr / Pat / Stmt node
+    # kind the matcher has an arm for, each with its flags and names flipped against the others
+    exprs = ["{}", "({})", "&{}", "&mut {}", "-{}", "!{}", "*{}", "{} + 1", "{} - 1", "{} * 2", "{} as u8", "{} as u16", "[{}, 1]", "[{}; 2]",
+             "[{}; 3]", "({}, 1)", "({},)", "f({})", "g({})", "f({}, 1)", "x.f({})", "x.g({})", "x.f::<u8>({})", "x.f::<u16>({})", "{}.a", "{}.b", "{}.0",
+             "{}[0]", "{}[1]", "{}..", "..{}", "0..{}", "0..={}", "{}?", "{}.await", "|x| {}", "move |x| {}", "|x: u8| {}", "|x, y| {}", "|y| {}",
+             "|x| -> u8 {{ {} }}", "async {{ {} }}", "async move {{ {} }}", "unsafe {{ {} }}", "const {{ {} }}", "{{ {} }}", "{{ {}; 1 }}", "{{ let x = {}; x }}",
+             "{{ let ref x = {}; x }}", "{{ let mut x = {}; x }}", "{{ let x: u8 = {}; x }}", "{{ let x: u16 = {}; x }}", "{{ let (x, y) = {}; x }}",
+             "{{ let [x, y] = {}; x }}", "{{ let [x, ..] = {}; x }}", "{{ let &x = {}; x }}", "{{ let &mut x = {}; x }}", "{{ let x @ 1 = {}; x }}",
+             "{{ let x = {} else {{ loop {{}} }}; x }}", "{{ let y = {}; y }}", "if {} {{ 1 }} else {{ 2 }}", "if {} {{ 1 }}", "if {} {{ 2 }}",
+             "match {} {{ 1 => 2, _ => 3 }}", "match {} {{ 1 | 2 => 2, _ => 3 }}", "match {} {{ x if x > 1 => 2, _ => 3 }}", "match {} {{ x => 2, _ => 3 }}",
+             "match {} {{ 1..=2 => 2, _ => 3 }}", "match {} {{ 1..2 => 2, _ => 3 }}", "loop {{ break {}; }}", "'a: loop {{ break 'a {}; }}", "'b: loop {{ break 'b {}; }}",
+             "loop {{ if {} {{ continue; }} }}", "'a: loop {{ if {} {{ continue 'a; }} }}", "while {} {{ }}", "'a: while {} {{ }}", "for x in {} {{ }}", "for y in {} {{ }}",
+             "return {}", "S {{ a: {} }}", "S {{ a: {}, ..d }}", "S {{ b: {} }}", "m::S {{ a: {} }}", "S {{ a: {}, b: 1 }}", "<T as Tr>::f({})", "T::f({})", "T::g({})",
+             "{} = 1", "{} += 1", "{} -= 1", "{} == 1", "{} < 1", "{} && true", "{} || true", "{} << 1", "m!({})", "{} as fn(u8) -> u8", "{}::<u8>()", "{}::<u16>()"]
+    for a in exprs:
+        for b in exprs:
+            out.append(("expr", a.format(*([P] * a.count("{}"))), b.format(*(["7"] * b.count("{}"))), "battery:expr-form"))
     tys = [r for r in refs if "Tr<Out" not in r and "{{" not in r]
     for a in tys:
         for b in tys:
@@ -239,6 +256,9 @@ def run(tier, seed, replay=None):
     rep.rule = ("pairs (a, b) of type / expression / trait-path patterns parsed by syn: b = a[theta] (positive), single-point "
                 "corruptions of such b, unrelated random pairs, reflexive pairs; distinct = distinct (kind, a, b) source texts; "
                 "non-trivial = a contains a parameter or a and b differ")
+    from .. import matchfacts
+    mf = matchfacts.generate()     # MatchFacts.lean: the fields the source's is_superset / substitute mention, regenerated on every run
+    rep.extra["match_facts"] = mf
     proof = C.proof_obligations(PROP)
     rep.proof = proof
     rep.broken += proof["failures"]
